@@ -14,5 +14,6 @@
 // limitations under the License.
 
 fn main() {
+    println!("cargo:rustc-check-cfg=cfg(flacenc_verif)");
     built::write_built_file().expect("Failed to acquire build-time information")
 }
